@@ -32,6 +32,18 @@ CHECKS = {
               technique="symbolic execution of the real encoder + SMT equivalence (validity + quantified completeness) against the connective semantics, counterexample replay"),
     "C14": tv("DESIGN.md 4 C14", "Twins of one parametric problem are built by the real API in one symbolic run: canonical vs renamed (adversarial name pools), vs every permutation of each declaration stage, vs the same problem built after other problems were built/solved; the two assertion sets are proved to admit the same schedules over role-matched observables (two quantified halves), and z3's global parameters are compared for the history twins.",
               technique="symbolic execution of two real builds + quantified SMT equivalence between them, counterexample replay on both builds"),
+    "C07": tv("DESIGN.md 4 C07", "The real solve(), _solve_optimize_incremental, create_objective and build_equivalent_weighted_objective run against a nondeterministic solver stub constrained only by z3's contract: every verdict sequence up to the bound, every symbolic model value, every clock script and max_iter setting is explored; per path z3 proves that pushed bounds are strict improvements in the objective's direction, that the returned model is the last sat one and no worse than earlier ones, that every exit claiming the optimum is justified by the contract, and that the optimised target is the (weighted sum of the) declared objective(s). Counterexamples are replayed on the real z3 behind a steering shim and judged by an independent 'does a better schedule exist' query.",
+              level=MC, technique="symbolic execution of the real optimisation loop against a contract-level solver stub (bounded exploration of verdict sequences) + SMT obligations over symbolic model values, steered replay on the real z3",
+              note="Bounded number of check() calls; z3's Optimize engine and the solver contract are trusted; problems without resources (build_solution branches are C11's)."),
+    "C12": tv("DESIGN.md 4 C12", "Inductive step on the solver stub: from the stack Base + earlier blocking clauses and a fully symbolic current model, find_another_solution must append, at stack depth 1, a clause equivalent to 'some task start, end or scheduled flag differs from the current model' (exactness gives distinctness and exhaustiveness; persistence gives 'differs from every earlier schedule'); same for find_another_solution_for_variable; return values match verdicts. Five small concrete instances are additionally enumerated with the real z3 and compared with an independent enumeration (trace validation).",
+              level=MC, technique="symbolic execution of the real enumeration methods against a contract-level solver stub + SMT equivalence of the blocking clause with its specification; real-z3 enumeration as trace validation",
+              note="Bounded call sequences; solver contract trusted; exhaustiveness on arbitrary instances follows from clause exactness + persistence (inductive argument stated in DESIGN)."),
+    "C13": tv("DESIGN.md 4 C13", "All sequences of public SchedulingSolver calls up to length 3 (thorough 4) are executed on the real code against the solver stub, for every verdict sequence: after every operation the solver stack must denote Base plus exact blocking clauses at depth 1 (no leftover optimisation bound, nothing dropped), and results must match verdicts (False only after unsat/unknown, solutions from the last sat model, objectives registered once). Replays run the same sequence on the real z3 with an independent oracle.",
+              level=MC, technique="bounded exploration of call histories of the real solver object against a contract-level solver stub + AST/SMT invariant checks, replay on the real z3",
+              note="Bounded history length and check() count; Pareto mode exempt by the property; solver contract trusted."),
+    "C19": tv("DESIGN.md 4 C19", "The real debug-mode code (assert_and_track bookkeeping, unsat branch of solve()) runs against the solver stub answering unsat with every explored core; the constraints printed must be constraints of the problem and must include the owner of every constraint-owned core literal (ownership computed from the constraints' own assertion lists), which by monotonicity makes basic rules + printed constraints unsat; all constraint assertions are tracked with distinct literals; the debug assertion set under all tracking literals is proved equivalent to the non-debug one. Replays isolate the conflict on the real z3 and re-solve the printed subset independently.",
+              level=MC, technique="symbolic execution of the real debug-mode control code against a contract-level solver stub over explored unsat cores + SMT equivalence debug vs non-debug, isolating replay on the real z3",
+              note="z3's unsat-core extraction trusted; cores explored exhaustively only for <= 6 constraint-owned literals."),
 }
 
 NOT_APPLICABLE = {}
